@@ -83,6 +83,13 @@ def model_cases(p):
                     res["u2"] = u2.double().tolist()
                     res["u2_shape"] = list(u2.shape)
                 out.append(res)
+            elif k == "ctrlgrid":
+                g = Grid(size=tuple(c["size"]), spacing=tuple(c["spacing"]), center=tuple(c["center"]), align_corners=True)
+                cg = B.cubic_bspline_control_point_grid(g, tuple(c["stride"]) if len(c["stride"]) > 1 or c["seq"] else c["stride"][0])
+                pts = torch.tensor(c["ks"], dtype=torch.float64)
+                w = cg.index_to_world(pts.to(cg.dtype)).double()
+                idx = g.world_to_index(w.to(g.dtype)).double()
+                out.append({"size": [int(v) for v in cg.size()], "index": idx.tolist()})
             elif k == "sderiv":
                 data = torch.tensor(c["data"], dtype=torch.float64)
                 r = spatial_derivatives(data, which=c["which"], mode="bspline", spacing=c["spacing"], stride=c["stride"])
@@ -246,7 +253,12 @@ def oracle(p):
         sp = [rng.choice([0.5, 1.0, 2.0, 0.25]) for _ in range(D)]
         bump("ctrl-grid")
         try:
-            g = Grid(size=tuple(ms), spacing=tuple(sp), align_corners=True)
+            kwg = {}
+            if D == 2 and i % 3 == 2:
+                kwg["direction"] = torch.tensor([[0.6, -0.8], [0.8, 0.6]])  # rotated grid
+            elif D == 3 and i % 3 == 2:
+                kwg["direction"] = torch.tensor([[0.0, -1.0, 0.0], [0.6, 0.0, -0.8], [0.8, 0.0, 0.6]])
+            g = Grid(size=tuple(ms), spacing=tuple(sp), align_corners=True, **kwg)
             cg = B.cubic_bspline_control_point_grid(g, tuple(ss))
             nn = B.cubic_bspline_control_point_grid_size(tuple(ms), tuple(ss))
             if tuple(cg.size()) != tuple(nn):
